@@ -54,10 +54,31 @@ def table_seeded():
     return "\n".join(out)
 
 
+def as_built():
+    out = []
+    for i in range(1, 21):
+        pid = f"C{i:02d}"
+        mp = HERE / "manifest.d" / f"{pid}.json"
+        ep = HERE / "evidence" / f"{pid}.json"
+        if not mp.exists():
+            out.append(f"**{pid}** — not claimed.\n")
+            continue
+        m = json.loads(mp.read_text())
+        ths, nob, ndis = [], 0, 0
+        if ep.exists():
+            cov = json.loads(ep.read_text()).get("coverage", {})
+            ths = [t.split(".")[-1] for t in cov.get("theorems", [])]
+            nob, ndis = cov.get("obligations", 0), cov.get("discharged", 0)
+        out.append(f"**{pid}** — {ndis}/{nob} property theorems discharged: " + ", ".join(f"`{t}`" for t in ths) + ".\n")
+        out.append("*Claim.* " + " ".join(m.get("text", "").split()) + "\n")
+        out.append("*Trusted / modelled rather than verified.* " + " ".join(m.get("note", "").split()) + "\n")
+    return "\n".join(out)
+
+
 def main():
     p = HERE / "DESIGN.md"
     s = p.read_text()
-    for tag, body in (("findings", table_findings()), ("seeded", table_seeded())):
+    for tag, body in (("findings", table_findings()), ("seeded", table_seeded()), ("asbuilt", as_built())):
         b, e = f"<!-- BEGIN AUTO:{tag} -->", f"<!-- END AUTO:{tag} -->"
         if b not in s:
             s += f"\n{b}\n{e}\n"
